@@ -117,6 +117,11 @@ def build_geometry(spec: dict):
         for key in ("dimensions", "voxel_size"):
             if key in kw:
                 kw[key] = [int(v) for v in kw[key]]
+    if spec.get("size_np"):
+        # sizes read from a file header: numpy scalars of that header's dtype (the values are exactly representable)
+        for key in ("dimensions", "voxel_size"):
+            if key in kw:
+                kw[key] = [np.dtype(spec["size_np"]).type(v) for v in kw[key]]
     cls = spec["cls"]
     if cls == "Geometry":
         return darsia.Geometry(**kw)
@@ -347,6 +352,15 @@ class C03Engine(Engine):
         if rng.random() < 0.12:
             spec["voxel_size"] = [float(rng.choice([1, 1, 2, 3])) for _ in range(d)]
             spec["int_sizes"] = True
+            if rng.random() < 0.3:
+                spec["voxel_size"] = [float(rng.choice([3_000_000, 2_500_000])) for _ in range(d)]  # nanometres: the product leaves int64 in 3-D
+                spec["size_by"] = "voxel_size"
+        elif rng.random() < 0.1:
+            spec["voxel_size"] = [float(np.float32(v)) for v in spec["voxel_size"]]
+            spec["size_np"] = rng.choice(["float32", "float32", "float16", "int32"])
+            if spec["size_np"] in ("float16", "int32"):
+                spec["voxel_size"] = [float(rng.choice([1, 2, 3] if spec["size_np"] == "float16" else [60000, 70000])) for _ in range(d)]
+            spec["size_by"] = "voxel_size"
         if rng.random() < 0.15:
             spec["nv_extra"] = [rng.randint(2, 4) for _ in range(rng.randint(1, 2))]
         if rng.random() < 0.3:
